@@ -116,10 +116,10 @@ fn first_diff(a: &str, b: &str) -> (String, String) {
     (cut(a), cut(b))
 }
 
-pub fn op(src: &str) -> String {
+pub fn op(src: &str, mode: Mode) -> String {
     let mut errs: Vec<(String, String, String)> = Vec::new();
     let mut n = 0u64;
-    match parse(src, Mode::Module, "<v>") {
+    match parse(src, mode, "<v>") {
         Err(e) => {
             // error offsets convert the same way with both locators
             let off = u32::from(e.offset) as usize;
